@@ -6,6 +6,7 @@ import XmppModel.Lemmas.StylingChunk
 import XmppModel.Lemmas.StylingRun
 import XmppModel.Lemmas.StylingSession
 import XmppModel.Lemmas.StylingNest
+import XmppModel.Lemmas.StylingMasks
 import XmppModel.Generated.C17
 /-!
 # C17 — the styling decoder is lossless, chunk-independent and well-bracketed
@@ -670,5 +671,69 @@ example :
     maskStep [] ⟨[0x61], SpanEmph, 0, none⟩ = none ∧
     maskStep [] ⟨[star], SpanStrong ||| SpanStrongStart, 0, none⟩ = some [1] ∧
     maskBracketed [star, 0x61, 0x20, under, 0x62, under, star, nl] = true := by decide +kernel
+
+/-! ### Bracketing on the returned masks: the generic half of the bridge (round G)
+
+`C17_bracketing_masks` for all documents needs two things: (a) the decoder's span stack moves
+LIFO and is empty at line ends and at the end (`C17_bracketing`, proved), and (b) every
+returned mask *agrees* with the stack step of its token (`StepAgree`, `Lemmas/StylingMasks.lean`:
+start bit of kind `k` ⇔ `k` pushed, end bit ⇔ `k` popped, span style bits = open spans plus
+the one just ended, nothing open after a newline).  Proved here, for every list of events and
+every chain of stack steps: (b) implies that the caller's automaton follows the stack, so a
+run from the empty stack to the empty stack is accepted.  NOT proved: (b) for the steps of
+`scan` through the chain of quote decoders (the eight paths of `scanSpan`/`scanBlock`); the
+small-scope theorem `C17_bracketing_masks_partial` and the `brk` lines stand in for it. -/
+
+/-- one event whose mask agrees with a LIFO step: the automaton makes exactly that step -/
+theorem C17_mask_step_of_agree_partial (st : List Nat) (e : Event) (st' : List Nat)
+    (h : StepAgree st e st') : maskStep st e = some st' := maskStep_of_agree st e st' h
+
+/-- **masks that agree with LIFO stack steps are well bracketed in the caller's sense**
+(generic in the events: no assumption on where they come from) -/
+theorem C17_bracketing_masks_of_agree_partial (evs : List Event) (h : RunAgree [] evs []) :
+    evs.foldlM maskStep [] = some [] := foldlM_maskStep_of_agree h
+
+/-- non-vacuity: the three events of `*a*` agree with push strong / keep / pop strong -/
+example : RunAgree []
+    [⟨[star], SpanStrong ||| SpanStrongStart, 0, none⟩, ⟨[0x61], SpanStrong, 0, none⟩,
+     ⟨[star], SpanStrong ||| SpanStrongEnd, 0, none⟩] [] := by
+  refine .cons ⟨some 1, none, .push 1 (by omega), by decide, by decide, by decide, by decide⟩
+    (.cons ⟨none, none, .keep, by decide, by decide, by decide, by decide⟩
+      (.cons ⟨none, some 1, .pop 1 [] (by omega) rfl, by decide, by decide, by decide, by decide⟩ (.nil _)))
+
+/-- the kind of a span directive byte, as an index into `spanBits` (emph, strong, strike, pre) -/
+def kindIdx (b : UInt8) : Nat := if b = under then 0 else if b = star then 1 else if b = tilde then 2 else 3
+
+theorem kindIdx_lt (b : UInt8) : kindIdx b < 4 := by unfold kindIdx; split <;> (try split) <;> (try split) <;> omega
+
+/-- consecutive decoders of a run are related by stack steps of span kinds -/
+def StackChain : Dec → List (Bytes × Dec) → Prop
+  | _, [] => True
+  | d, (_, d') :: rest =>
+    (∃ pu po, StackStep (d.openSpans.map kindIdx) (d'.openSpans.map kindIdx) pu po) ∧ StackChain d' rest
+
+theorem stackChain_of_runSteps : ∀ (l : List (Bytes × Dec)) (d : Dec) (R : Bytes), RunSteps d R l → StackChain d l := by
+  intro l
+  induction l with
+  | nil => intro _ _ _; trivial
+  | cons y ys ih =>
+    intro d R h
+    obtain ⟨t, d'⟩ := y
+    refine ⟨?_, ih d' _ h.2⟩
+    rcases h.1.lifo with e | ⟨b, e⟩ | ⟨b, e⟩
+    · rw [e]; exact ⟨none, none, .keep⟩
+    · rw [e, List.map_cons]; exact ⟨some (kindIdx b), none, .push _ (kindIdx_lt b)⟩
+    · rw [e, List.map_cons]; exact ⟨none, some (kindIdx b), .pop _ _ (kindIdx_lt b) rfl⟩
+
+/-- **half (a) of the bridge, in the automaton's vocabulary**: for every document and schedule
+the open spans of the decoder, read as span kinds innermost first, start empty, move by the
+stack steps keep / push k / pop k of the caller's automaton from token to token, and end empty.
+With `C17_bracketing_masks_of_agree_partial` what remains open for the masks is only that the
+start / end / style bits of each returned mask name the step of its token. -/
+theorem C17_stack_steps_partial (sch : Schedule) (doc : Bytes) :
+    StackChain {} (scanDoc none sch doc).1 ∧
+    ((finalDec {} (scanDoc none sch doc).1).openSpans.map kindIdx = []) := by
+  have h := C17_bracketing sch doc
+  exact ⟨stackChain_of_runSteps _ _ _ h.1, by rw [h.2]; rfl⟩
 
 end XmppModel.Props.C17
